@@ -1128,6 +1128,54 @@ class Emu(object):
         return out
 
 
+def emu_isolated(mode, backend, code, sts):
+    """Run every state of @sts through a jitter living in a forked child and stream the results back. Code jitted by the GCC
+    backend runs inside the emulating process: when it crashes (SIGFPE, SIGSEGV...) only the child dies; the case it was
+    executing is reported with outcome 'crash:<signal>' and a new child continues with the next case."""
+    import pickle
+    import signal
+    results = []
+    while len(results) < len(sts):
+        first = len(results)
+        rfd, wfd = os.pipe()
+        pid = os.fork()
+        if pid == 0:
+            code_ = 0
+            try:
+                os.close(rfd)
+                out = os.fdopen(wfd, "wb")
+                emu = Emu(mode, backend)
+                emu.load(code)
+                for st in sts[first:]:
+                    pickle.dump(emu.run(st), out, protocol=pickle.HIGHEST_PROTOCOL)
+                    out.flush()
+                out.close()
+            except BaseException:
+                code_ = 3
+            finally:
+                os._exit(code_)
+        os.close(wfd)
+        with os.fdopen(rfd, "rb") as inp:
+            while True:
+                try:
+                    results.append(pickle.load(inp))
+                except EOFError:
+                    break
+                except Exception:
+                    break
+        _, status = os.waitpid(pid, 0)
+        if len(results) < len(sts):
+            if os.WIFSIGNALED(status):
+                try:
+                    name = signal.Signals(os.WTERMSIG(status)).name
+                except ValueError:
+                    name = "SIG%d" % os.WTERMSIG(status)
+                results.append({"outcome": "crash:" + name})
+            else:
+                results.append({"outcome": "crash:exit%d" % os.WEXITSTATUS(status)})
+    return results
+
+
 def compare(form, st, nat, emu):
     """List of (component, detail) on which miasm contradicts the host for this case; [] when equal. None = skipped (undefined result)."""
     mode = form["mode"]
@@ -1259,15 +1307,27 @@ def llvm_mnemonics(codes):
     out = {}
     res = {}
     for triple in ("i386", "x86_64"):
-        txt = "\n".join(" ".join("0x%02x" % b for b in c) for c in codes) + "\n"
+        # every case is followed by 16 NOPs, an INT3 marker and 16 NOPs: the output stays aligned even when llvm-mc rejects a
+        # case and re-synchronises byte by byte (a mis-parse can swallow at most 14 bytes of the sled, never the marker)
+        sled = "0x90 " * 16
+        txt = "".join(" ".join("0x%02x" % b for b in c) + "\n" + sled + "\n0xcc\n" + sled + "\n" for c in codes)
         p = subprocess.run([exe, "--disassemble", "-triple=" + triple, "-output-asm-variant=1"], input=txt.encode(),
-                           stdout=subprocess.PIPE, stderr=subprocess.STDOUT)
+                           stdout=subprocess.PIPE, stderr=subprocess.DEVNULL)
         lines = [l.strip() for l in p.stdout.decode(errors="replace").splitlines()]
         lines = [l for l in lines if l and not l.startswith(".")]
-        res[triple] = lines
+        groups = [[]]
+        for l in lines:
+            if l == "int3":
+                groups.append([])
+            elif l != "nop":
+                groups[-1].append(l)
+        groups = groups[:-1]
+        res[triple] = groups
     if len(res["i386"]) != len(codes) or len(res["x86_64"]) != len(codes):
         return None
     for c, a, b in zip(codes, res["i386"], res["x86_64"]):
+        a = a[0] if len(a) == 1 else ("nop" if (not a and c == b"\x90") else "invalid:" + ";".join(a))
+        b = b[0] if len(b) == 1 else ("nop" if (not b and c == b"\x90") else "invalid:" + ";".join(b))
         out[c] = (a, b)
     return out
 
@@ -1311,13 +1371,17 @@ def run_form(form, backends, tier, tally, sigs):
             tally["distinct_native_results"] = tally.get("distinct_native_results", 0) + len(
                 {(n_["outcome"], n_["flags"], n_["gpr"][0], n_["gpr"][2], n_["xmm"][1], n_["win"][0x80:0x90]) for n_ in nat})
         sts, nat = natives[lt]
-        emu = _emu(form["mode"], backend)
-        emu.load(form["code"])
+        if backend == "gcc":
+            emu_results = emu_isolated(form["mode"], backend, form["code"], sts)
+        else:
+            emu = _emu(form["mode"], backend)
+            emu.load(form["code"])
+            emu_results = None
         floaty = False
         ev = tally.setdefault("evaluations_by_backend", {})
         ev[backend] = ev.get(backend, 0) + len(sts)
-        for st, n_ in zip(sts, nat):
-            e_ = emu.run(st)
+        for k_, (st, n_) in enumerate(zip(sts, nat)):
+            e_ = emu_results[k_] if emu_results is not None else emu.run(st)
             tally["evaluations"] = tally.get("evaluations", 0) + 1
             mo = tally.setdefault("miasm_outcomes", {})
             mo[e_["outcome"]] = mo.get(e_["outcome"], 0) + 1
@@ -1545,9 +1609,12 @@ def replay(case):
             h.close()
     finally:
         shutil.rmtree(outdir, ignore_errors=True)
-    emu = Emu(mode, backend)
-    emu.load(code)
-    e_ = emu.run(st)
+    if backend == "gcc":
+        e_ = emu_isolated(mode, backend, code, [st])[0]
+    else:
+        emu = Emu(mode, backend)
+        emu.load(code)
+        e_ = emu.run(st)
     r = judge(form, backend, st, nat, e_, {})
     return [] if r == "float" else r
 
